@@ -6,8 +6,9 @@
 (*        machine of named actions: TryNonce computes (r, s) from the current *)
 (*        nonce; RetryIncrementNonce (pycoin's k += 1, tolerated by the       *)
 (*        property, which only constrains the first nonce) moves on when r or *)
-(*        s is 0; Return prints.  With retries > 0 the harness accepts any    *)
-(*        signature the verify table accepts.                                 *)
+(*        s is 0; Return prints.  With retries > 0 the record carries `valid',*)
+(*        the set of all (r, s) valid for (d*G, z) (lemma ValidAreNonceImages)*)
+(*        and the harness accepts any member of it.                           *)
 (*  ver   (key Q, hash z) -> the set of (r, s) in (1..N-1)^2 that verify; the *)
 (*        harness probes pycoin on a larger grid (-1..2N)^2: everything else  *)
 (*        must be rejected.                                                   *)
@@ -40,7 +41,8 @@ RetryIncrementNonce == /\ mode = "sign" /\ vst = "retry"
 Return == /\ mode = "sign" /\ vst = "usable" /\ vst' = "returned"
           /\ UNCHANGED <<mode, vd, vz, vk0, vk, vsig, vtries>>
           /\ PrintT(ToJson([k |-> "sign", d |-> vd, z |-> vz, k0 |-> vk0, r |-> vsig.r, s |-> vsig.s,
-                            recid |-> vsig.recid, tries |-> vtries, kused |-> vk]))
+                            recid |-> vsig.recid, tries |-> vtries, kused |-> vk,
+                            valid |-> IF vtries > 0 THEN NonceImages(vd, vz) ELSE {}]))
 
 VerRow == /\ mode = "ver" /\ vst = "row" /\ vst' = "printed"
           /\ UNCHANGED <<mode, vd, vz, vk0, vk, vsig, vtries>>
